@@ -327,7 +327,12 @@ fn prune_strategy() -> impl Strategy<Value = PruneCase> {
             let ocomps: Vec<&str> = other.split('/').collect();
             // the first include pattern is derived from the path itself, further ones from another path
             let include: Vec<String> = incs.iter().enumerate().map(|(i, p)| if i == 0 { mk(p, &comps) } else { mk(p, &ocomps) }).collect();
-            let exclude: Vec<String> = excs.iter().map(|p| mk(p, &ocomps)).collect();
+            let mut exclude: Vec<String> = excs.iter().map(|p| mk(p, &ocomps)).collect();
+            // a trailing group of which only the last alternative is open-ended: `{dir,other/**}` excludes
+            // the entry `dir` itself and everything below `other`, but nothing below `dir`
+            if other.len() % 3 == 0 && comps.len() >= 2 {
+                exclude.push(format!("{}/{{{},{}zz/**}}", crate::ded::escape_glob(&base), crate::ded::escape_glob(comps[0]), crate::ded::escape_glob(ocomps[0])));
+            }
             PruneCase { base_dir: base, include, exclude, path, ci }
         })
 }
@@ -438,7 +443,7 @@ pub fn check(tier: Tier) -> i32 {
 
     ctx.finish(
         "exploration",
-        "clause 1: bounded-exhaustive - every glob of <=3 (quick) / <=4 (thorough) tokens over the 19-token alphabet (literals a b . - + ( ż \\*, ?, *, **, /, [ab], [!a], {a,b*}, @(a|b), ?(a|b), +(a|b), *(a|b)) against all 4680 paths of <=4 components over {a,b,ab,a.b,-,ż,A,a<LF>b}, case-sensitive and ignore-case, fclones' Pattern::glob (through Pattern::matches and Pattern::matches_path, the entry points of the scan options and of the dedupe keep/drop options) vs the harness' reference matcher written from README 'Path Globbing'; random globs of up to 7 tokens. clause 2: random PathSelector configurations (include/exclude globs derived from the path with wildcard substitutions, absolute or relative to base directories whose names contain . - + ( ) $ ż or glob syntax such as [1], {a,b}, +(x), a*, q?, @(a|b)) - (a) matches_full_path must agree with the reference matcher, a relative pattern being anchored at the base directory taken literally; (b) whenever the selector selects a full path every proper ancestor directory must pass matches_dir. Non-trivial (1) = glob has a wildcard token and a metacharacter/non-ASCII literal; (2) = selected path with >=3 ancestors. Distinct by construction for the enumeration, by digest for random cases.",
+        "clause 1: bounded-exhaustive - every glob of <=3 (quick) / <=4 (thorough) tokens over the 19-token alphabet (literals a b . - + ( ż \\*, ?, *, **, /, [ab], [!a], {a,b*}, @(a|b), ?(a|b), +(a|b), *(a|b)) against all 4680 paths of <=4 components over {a,b,ab,a.b,-,ż,A,a<LF>b}, case-sensitive and ignore-case, fclones' Pattern::glob (through Pattern::matches and Pattern::matches_path, the entry points of the scan options and of the dedupe keep/drop options) vs the harness' reference matcher written from README 'Path Globbing'; random globs of up to 7 tokens. clause 2: random PathSelector configurations (include/exclude globs derived from the path with wildcard substitutions, in a third of the cases one more exclude of the shape `BASE/{first-dir,other/**}`, absolute or relative to base directories whose names contain . - + ( ) $ ż or glob syntax such as [1], {a,b}, +(x), a*, q?, @(a|b)) - (a) matches_full_path must agree with the reference matcher, a relative pattern being anchored at the base directory taken literally; (b) whenever the selector selects a full path every proper ancestor directory must pass matches_dir. Non-trivial (1) = glob has a wildcard token and a metacharacter/non-ASCII literal; (2) = selected path with >=3 ancestors. Distinct by construction for the enumeration, by digest for random cases.",
         &["!( ) is outside the statement and not generated", "globs the reference grammar cannot parse (e.g. an unbalanced '?(' produced by token concatenation) are skipped and counted"],
     )
 }
